@@ -2,7 +2,8 @@
 
 A seeded history of header edits (content changes from a small alphabet so that equal
 contents, swaps and reverts are frequent; adding/removing a nested #include; clock jumps)
-is interleaved with builds, each in a fresh simulated process sharing one cache.  Every
+is interleaved with builds sharing one cache (a fresh simulated process per build, or several builds per process; an
+editor process may rewrite a header while a build runs).  Every
 build must exit cleanly and print the vector a textual resolution of the *current* files
 gives."""
 import hashlib
@@ -337,8 +338,8 @@ def main(tier):
                       "between them in one process; non-trivial = at least one build follows an edit; distinct = hash of the history")
     ex.report.assumptions = [
         "every #define in a header is guarded by #ifndef, so the model is 'first definition wins' along the include order",
-        "headers live in the project directory next to the kernel; include paths are not varied",
-        "builds are sequential (concurrency is C09's subject)",
+        "headers live in the project directory; they are reached by quoted includes, through the includes property, or by angle includes through okl/include_paths = [project directory] (a second directory that shadows a header is not generated)",
+        "builds do not overlap each other (that is C09's subject); an editor process may overlap a build, and that build is not judged",
     ]
     sysc = systematic()
     for sscn, o in zip(sysc, ex.pool.map(pscheck._exec_task, [(execute, x) for x in sysc])):
